@@ -777,6 +777,9 @@ impl PaZipCompressor {
             let end = (start + BLOCK_SIZE).min(input.len());
             let block = &input[start..end];
 
+            // compress_sequential appends to the shared scratch buffer and copies all of it out,
+            // so the scratch buffer must start empty for every block
+            self.output_buffer.clear();
             let mut block_output = Vec::new();
             self.compress_sequential(block, &mut block_output)?;
             compressed_blocks.push(block_output);
@@ -787,6 +790,8 @@ impl PaZipCompressor {
         for block in compressed_blocks {
             output.extend_from_slice(&block);
         }
+        self.stats.bytes_processed = input.len() as u64;
+        self.stats.bytes_output = output.len() as u64;
 
         Ok(())
     }
